@@ -352,9 +352,9 @@ impl Pool {
          *
          * o The client's current address as recorded in the client's current
          *   binding, ELSE */
-        if let Some(lease) = self
+        let live_leases = self
             .conn
-            .query_row(
+            .prepare_cached(
                 "SELECT
                address,
                expiry,
@@ -365,8 +365,10 @@ impl Pool {
              AND expiry > ?2
              ORDER BY
               address=?3 DESC,
-              expiry DESC
-             LIMIT 1",
+              expiry DESC",
+            )
+            .map_err(|e| Error::emit("Database query Error", &e))?
+            .query_map(
                 rusqlite::params![
                     clientid,
                     ts as u32,
@@ -375,28 +377,34 @@ impl Pool {
                         .unwrap_or_else(|| "".into())
                 ],
                 |row| {
-                    Ok(Some((
+                    Ok((
                         row.get::<usize, String>(0)?,
                         row.get::<usize, u32>(1)?,
                         row.get::<usize, u32>(2)?,
-                    )))
+                    ))
                 },
             )
-            .or_else(map_no_row_to_none)?
-            && let Ok(ip) = lease.0.parse::<std::net::Ipv4Addr>()
-            && addresses.contains(&ip)
-        {
-            // We want leases to double in size.  But normally you renew your
-            // lease at ½ the duration.  We don't want to always just double
-            // the lease, because you can accidentally end up with a ridiculously
-            // long lease if you renew rapidly.
-            // So instead we just use 3*renew.
-            let expiry = (ts as u32).saturating_sub(lease.2).saturating_mul(3);
-            return Ok(Lease {
-                ip,
-                expire: std::time::Duration::from_secs(expiry.into()),
-                lease_type: LeaseType::ReusingLease,
-            });
+            .map_err(|e| Error::emit("Database query Error", &e))?
+            .collect::<Result<Vec<_>, _>>()
+            .map_err(|e| Error::emit("Database query Error", &e))?;
+        /* A client can hold more than one unexpired lease (for example after the pool was
+         * reconfigured); use the first one that is still part of the pool. */
+        for lease in live_leases {
+            if let Ok(ip) = lease.0.parse::<std::net::Ipv4Addr>()
+                && addresses.contains(&ip)
+            {
+                // We want leases to double in size.  But normally you renew your
+                // lease at ½ the duration.  We don't want to always just double
+                // the lease, because you can accidentally end up with a ridiculously
+                // long lease if you renew rapidly.
+                // So instead we just use 3*renew.
+                let expiry = (ts as u32).saturating_sub(lease.2).saturating_mul(3);
+                return Ok(Lease {
+                    ip,
+                    expire: std::time::Duration::from_secs(expiry.into()),
+                    lease_type: LeaseType::ReusingLease,
+                });
+            }
         }
 
         /* o The client's previous address as recorded in the client's (now
